@@ -245,11 +245,11 @@ def reader_check(ctx, mode, mc_args, drivers, gen_args=None, l1=True, thorough_m
             nm = "%s_%s" % (ctx.prop, d.replace(":", "_"))
             env = {"MODE": mode}
             env.update({dv: "1" for dv in ctx.known})
-            jobs.append(("verdict", d, tf, ex.submit(C.tlc_trace, nm, "ReaderTrace", tf, None, ctx.devs, 3000, "4g", env)))
+            jobs.append(("verdict", d, tf, ex.submit(C.tlc_trace_sharded, nm, "ReaderTrace", tf, None, ctx.devs, 3000, "4g", env)))
             if l1:
-                jobs.append(("l1", d, tf, ex.submit(C.tlc_trace, nm + "_L1", "ReaderTrace", tf, None, "", 3000, "4g", {"MODE": "L1"})))
+                jobs.append(("l1", d, tf, ex.submit(C.tlc_trace_sharded, nm + "_L1", "ReaderTrace", tf, None, "", 3000, "4g", {"MODE": "L1"})))
             if lb:   # conformance with the windowed reader ReaderBuf under the recorded schedule (buffer offset, position, length, capacity)
-                jobs.append(("lb", d, tf, ex.submit(C.tlc_trace, nm + "_LB", "ReaderTrace", tf, None, "", 3000, "4g", {"MODE": "LB"})))
+                jobs.append(("lb", d, tf, ex.submit(C.tlc_trace_sharded, nm + "_LB", "ReaderTrace", tf, None, "", 3000, "4g", {"MODE": "LB"})))
     div = 0
     for kind, d, tf, fut in jobs:
         tr = fut.result()
@@ -402,8 +402,8 @@ def writer_check(ctx, mode, drivers, need=()):
             nm = "%s_%s" % (ctx.prop, d.replace(":", "_"))
             env = {"MODE": mode}
             env.update({dv: "1" for dv in ctx.known})
-            jobs.append(("verdict", d, tf, ex.submit(C.tlc_trace, nm, "WriterTrace", tf, None, ctx.devs, 3000, "4g", env)))
-            jobs.append(("l1", d, tf, ex.submit(C.tlc_trace, nm + "_L1", "WriterTrace", tf, None, "", 3000, "4g", {"MODE": "L1"})))
+            jobs.append(("verdict", d, tf, ex.submit(C.tlc_trace_sharded, nm, "WriterTrace", tf, None, ctx.devs, 3000, "4g", env)))
+            jobs.append(("l1", d, tf, ex.submit(C.tlc_trace_sharded, nm + "_L1", "WriterTrace", tf, None, "", 3000, "4g", {"MODE": "L1"})))
     div = 0
     for kind, d, tf, fut in jobs:
         tr = fut.result()
@@ -441,8 +441,8 @@ def c09(ctx):
     mc_writer(ctx, ["Inv_C09", "Inv_C19"], 4, "all")
     if not ctx.quick:
         mc_writer(ctx, ["Inv_C09"], 5, "full", name="MC_Writer5")
-    writer_check(ctx, "C09", ["writer:present"], need=("full:ok", "start_unknown_dep:ok"))
-    ctx.rule = "one evaluation = one writer run; each case presents one document in several ways (all Start/End; every / sampled subsets of masters as Full; deprecated vs option unknown-size call; sinks accepting 1..k bytes or answering Interrupted) or with several size options (widths 1-8, unknown size) with strict read-backs"
+    writer_check(ctx, "C09", ["writer:present", "writer:widths"], need=("full:ok", "start_unknown_dep:ok", "elem:size"))
+    ctx.rule = "one evaluation = one writer run; each case presents one document in several ways (all Start/End; every / sampled subsets of masters as Full; deprecated vs option unknown-size call; sinks accepting 1..k bytes or answering Interrupted) or with several size options (widths 1-8, unknown size) with strict read-backs; driver widths: elements of 2^(7w)-2 .. 2^(7w) bytes written with width w (honoured exactly or rejected)"
 
 
 @prop("C10")
@@ -504,13 +504,15 @@ def c17(ctx):
 
 @prop("C20")
 def c20(ctx):
-    consts = {"MaxLen": 4 if ctx.quick else 5, "Sigma": SIGMA12, "OneReadPerCall": "FALSE"}
-    r = C.tlc_mc("C20_MC_Async", "MC_Async", cfg(constants=consts, invariants=["Refines", "EndsOnce"]), workers=12, timeout=3000, heap="12g", coverage=False)
+    consts = {"MaxLen": 4 if ctx.quick else 5, "Sigma": SIGMA12, "Wrapper": '"header_aware"'}
+    r = C.tlc_mc("C20_MC_Async", "MC_Async", cfg(constants=consts, invariants=["Refines", "EndsOnce", "StepWise"]), workers=12, timeout=3000, heap="12g", coverage=False)
     ctx.add_mc(r)
+    if r["depth"] < 8:
+        raise C.ToolError("vacuity: MC_Async explored only depth %d" % r["depth"])
     reader_check(ctx, "C20", None, ["async"], gen_args=None, l1=False)
-    ctx.rule = "one evaluation = one run: the blocking iterator over the bytes, then TagIteratorAsync::next() loops and into_stream() on a single-threaded executor over a scripted AsyncRead (whole input at once; every partition for inputs <= 10 bytes; random partitions; inputs above the 64 KiB transfer buffer), with buffered-tag sets; relation P_C04 (items, offsets, first error; the stream by kind/id/value); runs in which the source needed more than one read and that differ are explained only by the listed deviation DEV_ASYNC_STRADDLE"
-    ctx.assumptions += ["MC_Async checks the intended wrapper (refinement to the blocking reader for every poll schedule); the current one-read-per-call wrapper is the named deviation (OneReadPerCall = TRUE reproduces the counterexample)",
-                        "multi-read runs that differ from the blocking run are reported as KNOWN-FINDING, so regressions confined to multi-read schedules are not detected by this check"]
+    ctx.rule = "one evaluation = one run: the blocking iterator over the bytes, then TagIteratorAsync::next() loops and into_stream() on a single-threaded executor over a scripted AsyncRead (whole input at once; every partition for inputs <= 10 bytes; for inputs <= 160 bytes every position as the end of the first read and one byte per read; random partitions; inputs above the 64 KiB transfer buffer), with buffered-tag sets; relation P_C04 (items, offsets, first error; the stream by kind/id/value)"
+    ctx.assumptions += ["MC_Async models the wrapper as repaired (header-aware: reads until the next item of the inner iterator has been received) and checks refinement to the blocking reader for every split of every input <= MaxLen over 12 byte values and the buffered sets {}, {A}, {B}, {A,B}; Wrapper = one_read (the code before commit 6c03323) and no_follow are refuted by TLC (documentation, not part of the check)",
+                        "the async source of the driver is always Ready (Pending is a property of the executor, not of the wrapper, which only awaits read())"]
 
 
 # --------------------------------------------------------------------------- C18
